@@ -453,6 +453,25 @@ Proof.
   apply PresJ_bind'; [apply PresJ_remove_cp; exact Hi | intros _; apply PresJ_ret].
 Qed.
 
+Lemma PresJ_remove_if_there X c : PresJ X (remove_if_there c).
+Proof.
+  unfold remove_if_there. apply PresJ_bind_get. intros s HJ.
+  destruct (has_node (fst s) c && cls_eqb (class_of (fst s) c) CCP) eqn:Eb; [|apply PresJ_ret].
+  apply andb_true_iff in Eb. destruct Eb as [Hh Hc].
+  pose proof (J4_cons X s HJ) as C. destruct (cons_has g0 s c C Hh) as [Hd _].
+  apply PresJ_remove_cp. rewrite <- (cons_class g0 s c C Hd).
+  destruct (class_of (fst s) c); simpl in Hc; try discriminate; reflexivity.
+Qed.
+
+Lemma PresJ_api_unpeer6 X a b ca cb : PresJ X (api_unpeer6 a b ca cb).
+Proof.
+  unfold api_unpeer6. apply PresJ_bind'; [apply PresJ_read | intros x].
+  apply PresJ_bind'; [apply PresJ_guard | intros _].
+  apply PresJ_bind'; [apply PresJ_get | intros ps].
+  destruct ps as [|p ps']; [apply PresJ_fail|].
+  apply PresJ_bind'; [apply PresJ_for_each_set; intros c _; apply PresJ_remove_if_there | intros _; apply PresJ_ret].
+Qed.
+
 Lemma PresJ_api_prune X : PresJ X api_prune.
 Proof.
   unfold api_prune.
@@ -515,6 +534,8 @@ Proof.
   - apply (PresJ_run g _ _ _ _ (PresJ_then_ret g _ _ _ (PresJ_api_node_remove_ns g _ n sname)) E).
   - refine (PresJ_run g _ _ _ _ _ E).
     apply PresJ_bind'; [apply PresJ_api_disconnect | intros c; apply PresJ_ret].
+  - refine (PresJ_run g _ _ _ _ _ E).
+    apply PresJ_bind'; [apply PresJ_api_unpeer6 | intros c; apply PresJ_ret].
   - refine (PresJ_run g _ _ _ _ _ E).
     apply PresJ_bind'; [apply PresJ_api_remove_interface | intros c; apply PresJ_ret].
   - apply (PresJ_run g _ _ _ _ (PresJ_then_ret g _ _ _ (PresJ_api_prune g _)) E).
